@@ -57,3 +57,8 @@ end GN.Props.C06
 
 Proved in `GN/EventLoop/Progress.lean` (audited with this property): progress: at quiescence (live count 0) no live step is enabled and nothing fires any more while the loop's exit is enabled and never blocked; with a non-zero count some live job has an enabled step.
 Theorems: `GN.EventLoop.Progress.quiescent_nothing_fires`, `GN.EventLoop.Progress.quiescent_disables_live_steps`, `GN.EventLoop.Progress.live_work_is_enabled`, `GN.EventLoop.Progress.run_exit_never_blocked`, `GN.EventLoop.Progress.run_returns_at_quiescence`. -/
+
+/-! ## The coupled system
+
+Proved in `GN/EventLoop/Combined.lean` (audited with this property): coupled system: the loop's exit because nothing is left (quiesce) is enabled exactly when the loop is at its select, in foreground mode, and every job is cancelled or finished - never earlier (a live job disables it) and always then (it is enabled, not blocked, and no loop-goroutine step of the ledger is enabled); while the loop is parked only deliveries change the count; a live timer always has an enabled step.
+Theorems: `GN.EventLoop.Combined.run_returns_never_earlier`, `GN.EventLoop.Combined.run_does_not_return_while_a_job_is_live`, `GN.EventLoop.Combined.run_returns_always_then`, `GN.EventLoop.Combined.quiesce_enabled_iff`, `GN.EventLoop.Combined.count_stable_at_select`, `GN.EventLoop.Combined.live_timer_has_enabled_step_at_select`. -/
